@@ -76,7 +76,7 @@ T_Slot == /\ Is("Slot") /\ Consume
                 \/ Ev.slot = "deploy" /\ Ev.op = "miss" /\ slotD[s] = 1 /\ <<s, "deploy">> \in fillAfter      \* TryDMissLate
                       /\ Idle(s) /\ cont[s] = "tryD" /\ Go(s, <<[op |-> "SetW"]>>, "awaitD")
                       /\ UNCHANGED <<rl, stage, state, prevStage, slotD, slotE, slotR, stepCtx, closedFlag, conn, exec, execRes, sigNil, sigQ, resQ, wg, execStarted>>
-                \/ Ev.slot = "enabling" /\ Ev.op = "take" /\ slotE[s] = "T" /\ AwaitE(s) /\ slotE'[s] = "empty"
+                \/ Ev.slot = "enabling" /\ Ev.op = "take" /\ slotE[s] = Ev.val /\ AwaitE(s) /\ slotE'[s] = "empty"
                 \/ Ev.slot = "starting" /\ Ev.op = "take" /\ slotR[s] = 1 /\ (TryR(s) \/ AwaitR(s)) /\ slotR'[s] = 0
                 \/ Ev.slot = "starting" /\ Ev.op = "miss" /\ slotR[s] = 0 /\ TryR(s)
                 \/ Ev.slot = "starting" /\ Ev.op = "miss" /\ slotR[s] = 1 /\ <<s, "starting">> \in fillAfter    \* TryRMissLate
